@@ -70,7 +70,7 @@ func c48Types() []evType {
 		evType{"PublicPath", "path", []evVal{{"/public/p", "/public/p"}}},
 		evType{"Path", "path", []evVal{{"/storage/q", "/storage/q"}, {"/public/q", "/public/q"}}},
 		evType{"CapabilityPath", "path", []evVal{{"/public/r", "/public/r"}}},
-		evType{"Type", "type-value", []evVal{{"Type<Int>()", "Type<Int>()"}, {"Type<S>()", "Type<$P.S>()"}, {"Type<&[Int?]>()", "Type<&[Int?]>()"}}},
+		evType{"Type", "type-value", []evVal{{"Type<Int>()", "Type<Int>()"}, {"Type<S>()", "Type<$P.S>()"}, {"Type<&[Int?]>()", "Type<&[(Int)?]>()"}}},
 		evType{"Int?", "optional", []evVal{{"nil", "nil"}, {"3", "3"}}},
 		evType{"Int??", "optional", []evVal{{"nil", "nil"}, {"3", "3"}}},
 		evType{"String?", "optional", []evVal{{"nil", "nil"}, {`"s"`, `"s"`}}},
@@ -429,6 +429,15 @@ func eventFieldOrder(ev cadence.Event) ([]string, error) {
 	return out, nil
 }
 
+// eventWire is the event as a host would put it on the wire (JSON-Cadence); used for the engine differential.
+func eventWire(ev cadence.Event) string {
+	b, err := jsoncdc.Encode(ev)
+	if err != nil {
+		return "unencodable: " + ev.String()
+	}
+	return string(b)
+}
+
 // c48RunChunk runs the chunk on one engine: rejected, or per-event failure classes.
 func c48RunChunk(c *c48Chunk, vm bool) (rejected bool, rejMsg string, fails map[int][2]string, evStrings []string, whole string) {
 	l := rt.NewLedger()
@@ -456,7 +465,7 @@ func c48RunChunk(c *c48Chunk, vm bool) (rejected bool, rejMsg string, fails map[
 		if cls != "" {
 			fails[i] = [2]string{cls, d}
 		}
-		evStrings = append(evStrings, ev.String())
+		evStrings = append(evStrings, eventWire(ev))
 	}
 	return false, "", fails, evStrings, ""
 }
@@ -637,7 +646,11 @@ func runC48(env *mc.Env) {
 		case "rejected":
 			env.R.Class("destroy-rejected-by-checker/"+d.Kind, func() any { return d.Shape + ": " + detail })
 		default:
-			env.R.Violation("destroy:"+d.Kind+"|"+d.sigShape()+"|"+cls, d, detail+"\n"+d.script())
+			sig := "destroy:" + d.Kind + "|" + d.sigShape() + "|" + cls
+			if d.Kind == "forms" {
+				sig = "destroy:forms|" + cls // the class names the failing default-argument form
+			}
+			env.R.Violation(sig, d, detail+"\n"+d.script())
 		}
 	})
 	env.R.BoundCompleted(fmt.Sprintf("%d field types (%d single-parameter events x 4 contexts, %d two-parameter events); %d destruction cases", len(types), len(singles), len(pairs), len(ds)))
@@ -676,6 +689,10 @@ var c48Forms = []ddForm{
 	{"self-dict-index-missing", "Int?", `self.d["none"]`, "nil"},
 	{"self-field-widened", "Int?", "self.f", "11"},
 	{"self-address-field", "Address", "self.addr", "0x0000000000000003"},
+	{"lit-int-widened", "Int?", "7", "7"},
+	{"lit-int-sized", "UInt8", "7", "7"},
+	{"lit-string-widened", "String?", `"lit"`, `"lit"`},
+	{"self-optional-field-widened", "Int??", "self.o", "12"},
 	{"base-field", "Int", "base.f", "11"},        // only valid inside an attachment
 	{"attachment-self-field", "Int", "self.g", "21"}, // attachment's own field
 }
@@ -901,7 +918,9 @@ func (d *c48Destroy) judge() (class, detail string) {
 		if cls != "" {
 			o[i].fail = cls + ":" + det
 		}
-		o[i].evs = rt.EventStrings(res.Events)
+		for _, e := range res.Events {
+			o[i].evs = append(o[i].evs, eventWire(e))
+		}
 	}
 	ri, rv := strings.HasPrefix(o[0].fail, "rejected:"), strings.HasPrefix(o[1].fail, "rejected:")
 	if ri && rv {
@@ -971,11 +990,14 @@ func (d *c48Destroy) judgeRun(res *rt.Result) (string, string) {
 			}
 			v := vals[name]
 			if m := conforms(v, ft); m != "" {
-				return "value-does-not-conform", m
+				if strings.HasSuffix(fn, "widened") {
+					fn = "default-argument-widened-to-optional" // one structural class: the argument's type is a proper subtype of the parameter's optional type
+				}
+				return "value-does-not-conform@" + fn, m
 			}
 			want := strings.ReplaceAll(f.Want, "$UUID", res.Logs[1])
 			if v.String() != want {
-				return "default-argument-value:" + fn, fmt.Sprintf("%s = %s carries %s, the resource being destroyed has %s", name, f.Expr, v.String(), want)
+				return "default-argument-value@" + fn, fmt.Sprintf("%s = %s carries %s, the resource being destroyed has %s", name, f.Expr, v.String(), want)
 			}
 		}
 		return "", ""
